@@ -196,6 +196,19 @@ def print_assumptions(prop, names):
     return res, out
 
 
+def coqchk(prop, timeout=3000):
+    """independent re-check of the compiled property files and everything they depend on
+    (coqchk); returns (ok, axioms-line, log-tail)"""
+    mods = ['SeqIO.Props.' + f for f in prop_files(prop)]
+    if not mods:
+        return False, '', 'no Props file'
+    with Lock('coq'):
+        rc, out = run(['coqchk', '-o', '-silent', '-Q', 'theories', 'SeqIO'] + mods, cwd=COQ, timeout=timeout)
+    m = re.search(r'\* Axioms:\s*(.*?)(?:\n\* |\Z)', out, re.S)
+    ax = ' '.join((m.group(1) if m else '').split())
+    return rc == 0, ax, out[-600:]
+
+
 # ---------------------------------------------------------------------------
 # running cases
 
